@@ -184,7 +184,22 @@ impl Scenario for ReadScenario {
             script.push(read_op(gen_static_read(rng, &cfg.points)));
             // walk through the series
             let steps = rng.urange(0, 10);
+            // a slow master: every confirm comes late, but in time - the delays add up to more than one confirm time-out
+            let slow = rng.chance(1, 8);
             for _ in 0..steps {
+                if slow {
+                    script.push(Op::SleepRel {
+                        base: TimeBase::ConfirmTimeout,
+                        delta_ms: -(rng.range(1, cfg.confirm_timeout_ms / 2) as i64),
+                        since_last_tx: true,
+                    });
+                    script.push(Op::Confirm {
+                        uns: false,
+                        seq: ConfSel::Expected,
+                        from: Who::Master,
+                    });
+                    continue;
+                }
                 if rng.chance(1, 12) {
                     // something that must be ignored arrives inside the confirm window, the right confirm only after it
                     match rng.below(3) {
@@ -564,8 +579,26 @@ impl Oracle for ReadOracle {
                         self.snapshot = Some(self.ledger.mirror.clone());
                     }
                 }
-                Ev::Cb(_, cb) => {
+                Ev::Cb(t, cb) => {
                     if let Cb::Info(s) = cb {
+                        // a confirm time-out is only due one confirm time-out after the fragment awaiting it was (last) sent
+                        if s.starts_with("solicited_confirm_timeout") {
+                            if let Some(sr) = self.series.as_ref() {
+                                if !sr.finished
+                                    && sr.awaiting_confirm.is_some()
+                                    && *t + 1 < sr.last_tx + self.confirm_timeout
+                                {
+                                    return Some(Violation::new(
+                                        "C11/series-timed-out-early",
+                                        format!("fragment-no={}", sr.fragments.min(4)),
+                                        format!(
+                                            "step {}: the series was abandoned for a confirm time-out at {} ms although fragment {} was sent at {} ms and the time-out is {} ms",
+                                            step.op_index, t, sr.fragments, sr.last_tx, self.confirm_timeout
+                                        ),
+                                    ));
+                                }
+                            }
+                        }
                         if s.starts_with("solicited_confirm_timeout")
                             || s.starts_with("solicited_confirm_wait_new_request")
                         {
